@@ -1,6 +1,126 @@
-(* C09 — values that are eq are the same map key. *)
-From verif Require Import lib.Base model.C08_Value model.C09 proofs.C09_proofs.
+(* C09 — eq is an equivalence and compare is a consistent total preorder.
+   Property theorems only; every proof is [exact <lemma>].
+   Model: model/C08_Value.v: equal = vals.Equal, cmp = vals.Cmp,
+   cmp_total rk = vals.CmpTotal with rk the (arbitrary, fixed) order of the Go
+   type descriptors.  wf v: float patterns are 64-bit, map keys pairwise not
+   Equal.  TransAt f a b c: if f a b and f b c are both in {<,=} (or both in
+   {>,=}) then f a c is their composition (= only if both are =). *)
+From verif Require Import lib.Base model.C08_Value model.C09.
+From verif Require Import proofs.C08_Value_proofs proofs.C09_proofs.
+Open Scope N_scope.
 
-Theorem C09_equal_hash_refuted : exists a b, equal a b = true /\ hash a <> hash b.
-Proof. exact equal_hash_refuted_w. Qed.
-Print Assumptions C09_equal_hash_refuted.
+(* ---- eq is an equivalence, except on values holding NaN ---- *)
+Theorem C09_equal_refl : forall a, wf a -> has_nan a = false -> equal a a = true.
+Proof. exact equal_refl. Qed.
+Print Assumptions C09_equal_refl.
+
+(* NaN and containers holding NaN are Equal to nothing, themselves included *)
+Theorem C09_equal_nan_never : forall a b, has_nan a = true -> equal a b = false.
+Proof. exact equal_nan_never. Qed.
+Print Assumptions C09_equal_nan_never.
+
+Theorem C09_equal_sym : forall a b, wf a -> wf b -> equal a b = true -> equal b a = true.
+Proof. exact equal_sym. Qed.
+Print Assumptions C09_equal_sym.
+
+Theorem C09_equal_trans : forall a b c, wf a -> wf b -> wf c ->
+  equal a b = true -> equal b c = true -> equal a c = true.
+Proof. exact equal_trans. Qed.
+Print Assumptions C09_equal_trans.
+
+(* ---- compare ---- *)
+(* 0 for eq values *)
+Theorem C09_cmp_eq_of_equal : forall a b, equal a b = true -> cmp a b = OEq.
+Proof. exact cmp_eq_of_equal. Qed.
+Print Assumptions C09_cmp_eq_of_equal.
+
+(* antisymmetric: compare and compare &total, any rank of the types *)
+Theorem C09_cmp_antisym : forall rk tot a b,
+  wf a -> wf b -> cmpg rk tot a b = flip (cmpg rk tot b a).
+Proof. exact cmpg_antisym. Qed.
+Print Assumptions C09_cmp_antisym.
+
+(* transitive, for values whose numbers are all exact (int, big int, rational,
+   mixed freely), lists and all other values included *)
+Theorem C09_cmp_trans_exact : forall a b c, wf a -> wf b -> wf c ->
+  nums_all is_exact a = true -> nums_all is_exact b = true -> nums_all is_exact c = true ->
+  TransAt cmp a b c.
+Proof. exact cmp_trans_exact. Qed.
+Print Assumptions C09_cmp_trans_exact.
+
+(* ... and for values whose numbers are all floats (NaN lowest, -0 = +0) *)
+Theorem C09_cmp_trans_inexact : forall a b c, wf a -> wf b -> wf c ->
+  nums_all is_float a = true -> nums_all is_float b = true -> nums_all is_float c = true ->
+  TransAt cmp a b c.
+Proof. exact cmp_trans_inexact. Qed.
+Print Assumptions C09_cmp_trans_inexact.
+
+(* FULL STATEMENT: forall wf a b c, TransAt cmp a b c — false when exact and
+   inexact numbers meet: 2^53+1 ~ 2^53.0 ~ 2^53 but 2^53+1 > 2^53 *)
+Theorem C09_cmp_trans_refuted :
+  exists a b c, wf a /\ wf b /\ wf c /\ cmp a b = OEq /\ cmp b c = OEq /\ cmp a c = OGt.
+Proof. exact cmp_trans_refuted_w. Qed.
+Print Assumptions C09_cmp_trans_refuted.
+
+(* the documented per-type orders (numbers by mathematical value, strings by
+   bytes, booleans false-first, lists lexicographically): compare answers what
+   the specification spec_cmp says, for values whose numbers are exact *)
+Theorem C09_cmp_is_spec_exact : forall a b o,
+  nums_all is_exact a = true -> nums_all is_exact b = true ->
+  spec_cmp a b = Some o -> cmp a b = o.
+Proof. exact cmp_is_spec_exact. Qed.
+Print Assumptions C09_cmp_is_spec_exact.
+
+(* FULL STATEMENT: the same for all numbers — false: 2^64 vs 1e30 and +Inf
+   (big ints outside int64 are compared as infinities), 1/3 vs the float next
+   to it (rationals are rounded first) *)
+Theorem C09_cmp_bigint_inf_refuted :
+  exists a b, spec_cmp a b = Some OLt /\ cmp a b = OGt /\
+              spec_cmp a (VFloat f_pos_inf) = Some OLt /\ cmp a (VFloat f_pos_inf) = OEq.
+Proof. exact cmp_bigint_inf_refuted_w. Qed.
+Print Assumptions C09_cmp_bigint_inf_refuted.
+
+Theorem C09_cmp_rat_rounded_refuted :
+  exists a b, spec_cmp a b = Some OGt /\ cmp a b = OEq.
+Proof. exact cmp_rat_rounded_refuted_w. Qed.
+Print Assumptions C09_cmp_rat_rounded_refuted.
+
+(* ---- compare &total ---- *)
+Theorem C09_cmp_total_never_unc : forall rk a b, cmp_total rk a b <> OUn.
+Proof. exact cmp_total_never_unc. Qed.
+Print Assumptions C09_cmp_total_never_unc.
+
+(* agrees with compare wherever compare is defined, for values without sliced
+   lists *)
+Theorem C09_cmp_total_agrees_partial : forall rk a b,
+  has_sublist a = false -> has_sublist b = false ->
+  cmp a b <> OUn -> cmp_total rk a b = cmp a b.
+Proof. exact cmp_total_agrees_partial. Qed.
+Print Assumptions C09_cmp_total_agrees_partial.
+
+(* FULL STATEMENT: the same for all values — false: a sliced list and a plain
+   list are two Go types, so two eq lists compare as different under &total *)
+Theorem C09_cmp_total_agrees_refuted :
+  exists a b, wf a /\ wf b /\ equal a b = true /\ cmp a b = OEq /\ cmp_total rk0 a b = OLt.
+Proof. exact cmp_total_agrees_refuted_w. Qed.
+Print Assumptions C09_cmp_total_agrees_refuted.
+
+(* NOT PROVED HERE (see checks/C09.md): transitivity of cmp_total,
+     forall rk injective, forall wf a b c with same-exactness numbers and no
+     sliced lists, TransAt (cmp_total rk) a b c;
+   it is checked on every observed triple by the oracle below. *)
+
+(* ---- the oracle evaluated on the implementation's observations states the
+   property ---- *)
+Theorem C09_oracle_sound : forall rk vs E C T,
+  check_proj rk vs E C T = true -> Spec_proj rk (fun i => nth i vs VNil) E C T.
+Proof. exact check_proj_sound. Qed.
+Print Assumptions C09_oracle_sound.
+
+(* non-vacuity *)
+Example C09_ex_orders :
+  cmp (VList false [VInt 1; VRat (mkrat 1 2)]) (VList true [VInt 1; VBig (2 ^ 70)]) = OLt
+  /\ cmp (VStr [97]) (VStr [97; 0]) = OLt /\ cmp (VBool false) (VBool true) = OLt
+  /\ cmp (VFloat 9221120237041090560) (VFloat f_neg_inf) = OLt   (* NaN < -Inf *)
+  /\ cmp (VInt 1) (VStr [49]) = OUn /\ cmp_total rk0 (VInt 1) (VStr [49]) = OLt.
+Proof. vm_compute. auto 10. Qed.
